@@ -4,7 +4,8 @@
 //! over all char-boundary offsets / spans of the concatenated text, plus
 //! one out-of-range offset.
 //! `D<flags> <plen> ; <code points>` and `G<flags> <code points> ; <spans>`: SpannedDiagnosticFormatter
-//! (lrpar/src/lib/diagnostics.rs), see `diag_case` / `spanned_case`; `C <hex grammar>`: `conflicts_case`.
+//! (lrpar/src/lib/diagnostics.rs), see `diag_case` / `spanned_case`; `C <hex grammar>`: `conflicts_case`;
+//! `E <code points>`: `LexParseError::pp` of errors that COVER text (hand-built lexers), see `errpp_case`.
 use gvh::util::*;
 use cfgrammar::{NewlineCache, Span};
 use lrlex::{DefaultLexerTypes, LRNonStreamingLexerDef, LexerDef};
@@ -131,6 +132,84 @@ fn lexer_queries(out: &mut String, text: &str, bounds: &[usize]) {
     }
 }
 
+/// `E <code points>`: for every boundary span (a, b), a <= b, of the text
+/// * ` | PE a b x<hex>`: a lexer built through the public `LRNonStreamingLexer::new(text, lexemes, newlines)`
+///   whose only "lexeme" is ONE lexing error `LRLexError::new(Span::new(a, b))` (what a hand-written lexer
+///   reports e.g. for an unterminated comment): `LexParseError::LexError(e).pp(&lexer, ..)`, the error taken
+///   from the lexer's own `iter()`;
+/// * ` | PQ a b x<hex>`: the same lexer with ONE lexeme of span (a, b) of a token the grammar
+///   `S: 'A' 'B';` cannot start with ('B'), parsed without recovery: `pp` of the resulting
+///   `LexParseError::ParseError` (its lexeme is that lexeme); `PQ a b -` when the parse does not
+///   end in exactly one parse error;
+/// * ` | PR a b x<hex>`: the lexing-error lexer run through the same parser (`parse_map` hands the
+///   lexing error back as `LexParseError::LexError`), then `pp`.
+fn errpp_case(line: &str) -> String {
+    use cfgrammar::yacc::{YaccGrammar, YaccKind, YaccOriginalActionKind};
+    use lrlex::{DefaultLexeme, LRLexError, LRNonStreamingLexer};
+    use lrpar::{Lexeme, RTParserBuilder, RecoveryKind};
+    type LT = DefaultLexerTypes<u32>;
+    let text = cps_to_string(line);
+    let grm = YaccGrammar::<u32>::new_with_storaget(
+        YaccKind::Original(YaccOriginalActionKind::GenericParseTree),
+        "%start S\n%%\nS: 'A' 'B';\n",
+    )
+    .unwrap();
+    let (_, stable) = lrtable::from_yacc(&grm, lrtable::Minimiser::Pager).unwrap();
+    let btok = u32::from(grm.token_idx("B").unwrap());
+    let mut bounds: Vec<usize> = text.char_indices().map(|(i, _)| i).collect();
+    bounds.push(text.len());
+    let mut out = String::new();
+    write!(out, "N {}", text.len()).unwrap();
+    for (i, &a) in bounds.iter().enumerate() {
+        for &b in &bounds[i..] {
+            // ---- one lexing error covering (a, b) ----
+            let r = catch(std::panic::AssertUnwindSafe(|| {
+                let cache: NewlineCache = std::iter::once(text.as_str()).collect();
+                let lexer: LRNonStreamingLexer<LT> =
+                    LRNonStreamingLexer::new(&text, vec![Err(LRLexError::new(Span::new(a, b)))], cache);
+                let e = lexer.iter().next().unwrap().unwrap_err();
+                let lpe: LexParseError<u32, LT> = LexParseError::LexError(e);
+                lpe.pp(&lexer, &|_| None)
+            }));
+            res_hex(&mut out, "PE", &format!("{} {}", a, b), r);
+            let r = catch(std::panic::AssertUnwindSafe(|| {
+                let cache: NewlineCache = std::iter::once(text.as_str()).collect();
+                let lexer: LRNonStreamingLexer<LT> =
+                    LRNonStreamingLexer::new(&text, vec![Err(LRLexError::new(Span::new(a, b)))], cache);
+                let pb = RTParserBuilder::<u32, LT>::new(&grm, &stable).recoverer(RecoveryKind::None);
+                let (_, errs) = pb.parse_map(&lexer, &|_| (), &|_, _| ());
+                match errs.as_slice() {
+                    [e @ LexParseError::LexError(_)] => Some(e.pp(&lexer, &|t| grm.token_epp(t))),
+                    _ => None,
+                }
+            }));
+            match r {
+                Ok(None) => write!(out, " | PR {} {} -", a, b).unwrap(),
+                Ok(Some(m)) => res_hex(&mut out, "PR", &format!("{} {}", a, b), Ok(m)),
+                Err(m) => res_hex(&mut out, "PR", &format!("{} {}", a, b), Err(m)),
+            }
+            // ---- one unexpected lexeme covering (a, b) ----
+            let r = catch(std::panic::AssertUnwindSafe(|| {
+                let cache: NewlineCache = std::iter::once(text.as_str()).collect();
+                let lexer: LRNonStreamingLexer<LT> =
+                    LRNonStreamingLexer::new(&text, vec![Ok(DefaultLexeme::new(btok, a, b - a))], cache);
+                let pb = RTParserBuilder::<u32, LT>::new(&grm, &stable).recoverer(RecoveryKind::None);
+                let (_, errs) = pb.parse_map(&lexer, &|_| (), &|_, _| ());
+                match errs.as_slice() {
+                    [e @ LexParseError::ParseError(_)] => Some(e.pp(&lexer, &|t| grm.token_epp(t))),
+                    _ => None,
+                }
+            }));
+            match r {
+                Ok(None) => write!(out, " | PQ {} {} -", a, b).unwrap(),
+                Ok(Some(m)) => res_hex(&mut out, "PQ", &format!("{} {}", a, b), Ok(m)),
+                Err(m) => res_hex(&mut out, "PQ", &format!("{} {}", a, b), Err(m)),
+            }
+        }
+    }
+    out
+}
+
 /// `C <hex of a yacc grammar source (Original, NoAction)>`: `format_conflicts` on the grammar's own
 /// text, to reach the private `underline_spans_on_line_with_text`.  Result: `K x<hex of the output>`
 /// then, per shift/reduce conflict in the order they are formatted, ` | Q s e s e ...` = the spans of
@@ -191,6 +270,9 @@ fn main() {
         }
         if let Some(rest) = line.strip_prefix("C") {
             return conflicts_case(rest);
+        }
+        if let Some(rest) = line.strip_prefix("E") {
+            return errpp_case(rest);
         }
         if let Some(rest) = line.strip_prefix("G") {
             return spanned_case(rest.trim_start_matches(|ch: char| !ch.is_whitespace()));
